@@ -712,6 +712,29 @@ func genLockRetry(cfg simkit.RunConfig, backend string) *Scenario {
 		sc.Txns = append(sc.Txns, a)
 		id++
 	}
+	// a retried fair-locking statement followed by an insert of a key it locked: the existence the first attempt
+	// learned has to survive the retry (the insert is refused from what the client remembers, no request is sent)
+	if r.Intn(3) == 0 {
+		pre := TxnProg{ID: id, Client: 2, DelayMs: 0, End: "commit"}
+		k := pick(r, keys)
+		pre.Ops = append(pre.Ops, Op{Kind: "set", Keys: []string{k}, Val: fmt.Sprintf("pre%d", id)})
+		sc.Txns = append(sc.Txns, pre)
+		id++
+		a := TxnProg{ID: id, Client: r.Intn(2), DelayMs: 40 + r.Intn(40), Pessimistic: true, End: "commit"}
+		other := pick(r, keys)
+		if r.Intn(4) != 0 {
+			a.Ops = append(a.Ops, Op{Kind: "lock", Keys: []string{other}, WaitMs: 300}) // the primary exists before the stage
+		}
+		a.Ops = append(a.Ops, Op{Kind: "aggstart"},
+			Op{Kind: "lock", Keys: []string{k}, WaitMs: 300, RetVals: r.Intn(2) == 0, CheckExist: true},
+			Op{Kind: "aggretry"},
+			Op{Kind: "lock", Keys: []string{k}, WaitMs: 300, RetVals: r.Intn(3) == 0, CheckExist: true},
+			Op{Kind: "aggdone"},
+			Op{Kind: "insert", Keys: []string{k}, Val: fmt.Sprintf("ins%d", id)},
+			Op{Kind: "lock", Keys: []string{k}, WaitMs: 300})
+		sc.Txns = append(sc.Txns, a)
+		id++
+	}
 	// blockers: hold one key (not the first of the statement, most of the time) for a short while
 	nb := 1 + r.Intn(2)
 	for i := 0; i < nb; i++ {
